@@ -125,6 +125,10 @@ func (g *Storage) observe(op, key string, err error) {
 	}
 }
 
+// Park parks the calling goroutine, if it is a registered worker, like a storage call named op: it shows up as the
+// worker's pending call and continues when the scheduler releases it. For schedule points that are not storage calls.
+func (g *Storage) Park(op, key string) Outcome { return g.enter(op, key) }
+
 func (g *Storage) enter(op, key string) Outcome {
 	id := Goid()
 	g.mu.Lock()
